@@ -3,6 +3,7 @@ import TrackVerif.LT.Spec
 import TrackVerif.LT.CodecLemmas
 import TrackVerif.LT.XmlLemmas
 import TrackVerif.LT.TreeLemmas
+import TrackVerif.LT.SpecFacts
 import TrackVerif.Generated.LT
 /-
   C13 — Encoded LapTimer files are well-formed XML in LapTimer's field syntax.
@@ -108,6 +109,29 @@ theorem document_is_wellformed (db : V) (root : String) (t : Xml.Tree) (f : Nat)
   refine ⟨Xml.renderLTFrom {} (Xml.toksOf t), ?_, ?_⟩
   · exact document_is_laptimer_rendering db root _ hroot hm (Xml.tokOk_of_treeOk t hok)
   · exact Xml.printed_tree_reads_back t hok f
+
+/-- **every document, no premise**: whatever database the encoder accepts, what it writes is the
+    UTF-8 header followed by the indented printing of ONE element tree whose root is
+    `LapTimerDB`, whose element and attribute names are all plain schema names, whose attribute
+    values are plain integers; a strict tokenizer accepts the body — no syntax error, tags
+    properly nested — and, layout whitespace aside, reads it back as exactly that tree with
+    every text as a parser must return it.  (The marshaller's walk — struct order, omitempty,
+    pointers, slices — is covered: the tree is what `marshalTrees` produced.) -/
+theorem every_document_is_wellformed (db : V) (chars : List Char) (f : Nat)
+    (h : encodeDoc Spec.schema db = .ok chars) :
+    ∃ t, marshalTrees Spec.schema 64 "LapTimerDB" false (.named "DB") db = .ok [t] ∧
+      Xml.treeOk t = true ∧ nameOfTree t = "LapTimerDB" ∧
+      chars = Xml.xmlHeader ++ Xml.renderTree 0 t ∧
+      (let toks := Xml.nest [] false (Xml.lexBody (f + 1 + (Xml.lexedOf 0 t).length) (Xml.renderTree 0 t))
+       toks.any Xml.isBad = false ∧
+       Xml.significant toks = Xml.significant (Xml.toksOf (Xml.substTree t))) := by
+  obtain ⟨t, hm, hok, hname, hc⟩ := encode_renders db chars h
+  refine ⟨t, hm, hok, hname, hc, ?_⟩
+  have := Xml.printed_tree_reads_back t hok f
+  have hr := Xml.render_root t []
+  simp only [List.append_nil, Xml.renderLTFrom] at hr
+  rw [hr] at this
+  exact this
 
 /-! ### Field syntax, for every value -/
 
